@@ -217,7 +217,7 @@ def run_case(case, policy=None, max_steps=20000):
     events = log.sorted()
     for ev in events:
         if ev['e'] == 'connect':
-            ev['od'] = kinds_at(events, ev) != 'poll'
+            ev['od'] = kinds_at(events, ev) not in ('poll', None)    # None: the real poll thread
     return s, {'events': events, 'sched': out}
 
 
